@@ -372,10 +372,12 @@ class SimNet:
         self.label_ctx = None  # contextvar-like callable returning current session label
         self.keep_log = True
         self.harness_errors = []
+        self.deliver_taps = []  # callables(conn, side, data) when bytes are handed to a protocol
+        self.write_taps = []  # callables(conn, side, data) when an endpoint calls transport.write
 
     # ---- helpers
-    def _lat(self):
-        lo, hi = self.cfg.latency
+    def _lat(self, cfg=None):
+        lo, hi = (cfg or self.cfg).latency
         return lo if hi <= lo else self.rng.uniform(lo, hi)
 
     def at_event(self, seq, fn):
@@ -684,6 +686,8 @@ class SimTransport(asyncio.transports._FlowControlMixin):
             else:
                 self._rcv_bytes -= len(item)
                 self.bytes_received += len(item)
+                for tap in self.net.deliver_taps:
+                    tap(self.conn, self.side, item)
                 try:
                     self._protocol.data_received(bytes(item))
                 except BaseException as exc:  # noqa
@@ -709,6 +713,8 @@ class SimTransport(asyncio.transports._FlowControlMixin):
         if self._rst_pending:
             self._force_close(BrokenPipeError(errno.EPIPE, "Broken pipe"))
             return
+        for tap in self.net.write_taps:
+            tap(self.conn, self.side, data)
         self._sendbuf += data
         self.bytes_written += len(data)
         self.last_write_at = self._loop._vtime
@@ -785,7 +791,7 @@ class SimTransport(asyncio.transports._FlowControlMixin):
     def _enqueue(self, item):
         pipe = self._out
         loop = self._loop
-        when = max(pipe.last_when, loop._vtime + self.net._lat())
+        when = max(pipe.last_when, loop._vtime + self.net._lat(self.conn.cfg))
         pipe.last_when = when
         n = 0 if item is FIN or item is RST else len(item)
         pipe.inflight.append(item)
